@@ -543,6 +543,36 @@ theorem c09_raising_callback_stale_reason_witness :
     (stepCb .changeRaises c (init c) (.tick 1)).1.st.length = 5 ∧
     (stepCb .changeRaises c (init c) (.tick 1)).1.st.ops = 0 := by decide
 
+/-- Bounds and timestamps survive everything explored beyond the quantifier: over ANY history in which each call runs
+    under whatever callbacks are installed at that moment (returning, `on_phase_change` raising, `on_senescence`
+    raising) and under whatever configuration is in force at that moment (error threshold, renewal permission,
+    lifetime and idle limits re-assigned at will; `max_operations` kept), the remaining length stays within
+    `[0, max_operations]` and an ACTIVE/SENESCENT lifecycle keeps its start and last-activity times. -/
+theorem c09_bounds_hold_under_raising_callbacks_and_reconfiguration (cfg0 : Cfg)
+    (h : List (CbMode × Cfg × Op)) (hm : ∀ x ∈ h, x.2.1.maxOps = cfg0.maxOps) :
+    WF cfg0 (runCb (init cfg0) h) ∧ Timed (runCb (init cfg0) h) := by
+  have key : ∀ (l : List (CbMode × Cfg × Op)) (s : State), (∀ x ∈ l, x.2.1.maxOps = cfg0.maxOps) →
+      WF cfg0 s → Timed s → WF cfg0 (runCb s l) ∧ Timed (runCb s l) := by
+    intro l
+    induction l with
+    | nil => intro s _ hw ht; exact ⟨hw, ht⟩
+    | cons x xs ih =>
+      obtain ⟨m, cfg, op⟩ := x
+      intro s hx hw ht
+      have hc : cfg.maxOps = cfg0.maxOps := hx (m, cfg, op) (by simp)
+      have hw' : WF cfg s := by unfold WF at *; rw [hc]; exact hw
+      have h1 := stepCb_wf m cfg s op hw'
+      have h2 : WF cfg0 (stepCb m cfg s op).1.st := by unfold WF at *; rw [← hc]; exact h1
+      exact ih _ (fun y hy => hx y (by simp [hy])) h2 (stepCb_timed m cfg s op ht)
+  exact key h (init cfg0) hm (wf_init cfg0) (timed_init cfg0)
+
+/-- such a history: the threshold is lowered on the live lifecycle, a callback raises in between -/
+example :
+    let c : Cfg := ⟨5, 3, true, none, none⟩
+    let c' : Cfg := ⟨5, 1, false, none, none⟩
+    (runCb (init c) [(.changeRaises, c, .tick 1), (.ok, c, .tick 1), (.ok, c', .err), (.ok, c', .renew none true)]).phase
+      = .senescent := by decide
+
 /-! ## Agreement of the hand-written automaton with the source translated on this run
 
 `Operon/Gen/TelomereTranslated.lean` is regenerated from `operon_ai/state/telomere.py` by
